@@ -775,7 +775,9 @@ def r_local(E):
         rel, fn = pm.find_function(MU, q)
         res.instances += 1
         from ..astutil import nodes_through_helpers as _nthm
-        _mu_nodes = _nthm(fn, pm.helper_finder("ModelingUpdate"), depth=2)      # (the per-value step may be a helper, map()ped)
+        # (the per-value step may be a helper, map()ped; the zone and the period may be read by module-level helpers or by
+        # the constructors of a small record class)
+        _mu_nodes = list(_nthm(fn, pm.helper_finder("ModelingUpdate"), depth=3, find_function=pm.any_helper_finder(rel)))
         naive_test = any(isinstance(n, ast.Compare) and isinstance(n.ops[0], (ast.Is, ast.IsNot)) and isinstance(n.left, ast.Attribute)
                          and n.left.attr in ("tz", "tzinfo") for n in _mu_nodes)
         uses_zone = any(isinstance(n, ast.Attribute) and n.attr == "timezone" and isinstance(n.value, ast.Attribute)
@@ -851,6 +853,44 @@ def r_local(E):
                 f"convert_to_utc returns `{norm(arg)[:70]}`, which does not come from localising and converting every "
                 f"timestamp of the series: a shortcut based on the offsets at the two ends places every hour between two "
                 f"daylight-saving transitions one hour off", rel, r.lineno, fn.name))
+    # the places that read a naive local-time index in its zone agree on how clock changes are read: the simulation filter
+    # cuts the local series at a date by localising its index, and must see each hour where convert_to_utc put it (same
+    # `nonexistent`, same reading of the repeated hour)
+    def _amb(e):
+        if e is None:
+            return "<default: raise>"
+        if isinstance(e, ast.Constant):
+            return repr(e.value)
+        t_ = norm(e)
+        if isinstance(e, ast.Call):
+            f_ = norm(e.func).split(".")[-1]
+            fv = next((k.value for k in e.keywords if k.arg == "fill_value"), e.args[1] if (f_ == "full" and len(e.args) > 1) else None)
+            if f_ == "full" and isinstance(fv, ast.Constant) and isinstance(fv.value, bool):
+                return repr(fv.value)
+            if f_ == "ones":
+                return "True"
+            if f_ == "zeros":
+                return "False"
+        return t_
+    readings = []
+    for mod_, (rel_, tree_, _s) in sorted(pm.modules.items()):
+        for c_ in [x for x in ast.walk(tree_) if isinstance(x, ast.Call) and isinstance(x.func, ast.Attribute)
+                   and x.func.attr == "tz_localize"]:
+            ne = next((k.value for k in c_.keywords if k.arg == "nonexistent"), None)
+            am = next((k.value for k in c_.keywords if k.arg == "ambiguous"), None)
+            readings.append((rel_, c_, norm(ne) if ne is not None else "<default: raise>", _amb(am)))
+    res.instances += len(readings)
+    # (a single shared localisation is consistent with itself; that both readers localise at all is judged above)
+    if len({(r_[2], r_[3]) for r_ in readings}) > 1:
+        ref = next((r_ for r_ in readings if r_[0].endswith("explainable_objects.py")), readings[0])
+        for r_ in readings:
+            if (r_[2], r_[3]) != (ref[2], ref[3]):
+                res.findings.append(Finding(
+                    "R-LOCAL", f"{r_[0]} :: tz_localize reads clock changes differently",
+                    f"`{norm(r_[1])[:90]}` localises a naive local-time index with nonexistent={r_[2]}, ambiguous={r_[3]} "
+                    f"while the converter to UTC uses nonexistent={ref[2]}, ambiguous={ref[3]}: on the night the clocks go "
+                    f"back the repeated hour lands one hour apart in the two readings, so the simulation filter cuts the "
+                    f"local series at another hour than the UTC series it is compared with", r_[0], r_[1].lineno, "tz_localize"))
     res.floor = 6
     return res
 
